@@ -82,6 +82,10 @@ def sg_coherence(prog: Program) -> RuleResult:
     return r
 
 
+def _field(e: ast.expr) -> Optional[str]:
+    return e.attr if isinstance(e, ast.Attribute) and isinstance(e.value, ast.Name) and e.value.id == "self" else None
+
+
 def idkey(prog: Program) -> RuleResult:
     r = RuleResult("IDKEY", "id()-keyed entries are removed by a stored id, only if still owned, and lookups validate the referent", floor=3)
     sg = prog.cls(SG)
@@ -89,7 +93,23 @@ def idkey(prog: Program) -> RuleResult:
     weak_names = {n for _, n in weak}
     allf = set(sg.methods.values())
     effs = effects(prog, sg, allf)
-    idkeyed = sorted({fl for fl, kind, f, n, key in effs if kind == "add" and key.startswith("id(")})
+    # attributes that hold an id taken at construction (self.instance_id = id(instance)): a key read from one is an id() key too
+    id_attrs = set()
+    for m in prog.modules.values():
+        if ".entity_query_language" not in m.name:
+            continue
+        for n in ast.walk(m.tree):
+            if isinstance(n, ast.Assign) and isinstance(n.value, ast.Call) and isinstance(n.value.func, ast.Name) and n.value.func.id == "id":
+                for t in n.targets:
+                    if isinstance(t, ast.Attribute):
+                        id_attrs.add(t.attr)
+
+    def is_id_key(key: str) -> bool:
+        first = key.split(",")[0].strip()
+        return first.startswith("id(") or first.split(".")[-1] in id_attrs
+
+    idkeyed = sorted({fl for fl, kind, f, n, key in effs if kind == "add" and is_id_key(key)}
+                     | {_field(c.func.value) for f in allf for c in calls_in(f.node) if call_name(c) == "get" and isinstance(c.func, ast.Attribute) and c.args and src(c.args[0]).startswith("id(") and _field(c.func.value)})
     if not idkeyed:
         raise AnalysisError("IDKEY: no id()-keyed structure found in SymbolGraph (the instance index is the confirmed instance)")
     rm = prog.method(sg.qual, "remove_node", inherited=False)
@@ -126,6 +146,17 @@ def idkey(prog: Program) -> RuleResult:
                 guarded, f"SymbolGraph.{f.name}#{fl}-own-entry", site(f, n), src(n),
                 "deletes the entry only while it still maps to the removed wrapper",
                 "ids are recycled: a newer instance may own this key by the time the dead wrapper is swept; an unconditional delete removes the live instance's entry",
+            )
+        # registration overwrites: dead wrappers are swept lazily, so the slot of a recycled id may still hold one
+        for g, kind, f, n, key in effs:
+            if g != fl or kind != "add" or not is_id_key(key):
+                continue
+            overwrites = isinstance(n, ast.Assign) or (isinstance(n, ast.Call) and n.func.attr in ("__setitem__", "update"))
+            r.check(
+                overwrites, f"SymbolGraph.{f.name}#{fl}-insert-overwrites", site(f, n), src(n),
+                "a newly registered wrapper takes the slot of its instance's id unconditionally",
+                f"the wrapper is registered with {n.func.attr if isinstance(n, ast.Call) else '?'}(): when the id was last used by an instance that died and has not been swept yet, the "
+                f"dead wrapper keeps the slot, every lookup for the new instance fails its referent check and creates yet another node - its relations are spread over duplicates",
             )
         # lookups validate the referent
         for f in sorted(allf, key=lambda x: x.qual):
